@@ -17,7 +17,7 @@ generate, project, oracle, nontrivial, stats = _world.make(
         dict(n_proc=(0, 1), handlers=0.2, traits=0.5, decoy=0.4,
              w=dict(addproc=0.5, rmproc=0, dispatch=0, enable=0.5)),
         # histories in which lifecycle callbacks raise half-way through an operation
-        dict(n_comp=(2, 5), n_proc=(0, 1), handlers=0.8, raises=0.8, dup_in_create=0.3,
+        dict(n_comp=(2, 5), n_proc=(0, 1), handlers=0.8, raises=0.8, dup_in_create=0.3, reacts=0.5,
              w=dict(addproc=0.3, rmproc=0, dispatch=0, enable=0.5, delete=5, process=3, create=5)),
         # callbacks that call back into the same world (nested add / remove / delete / create / processors)
         dict(n_comp=(2, 5), n_proc=(0, 2), handlers=0.9, reenter=0.95,
